@@ -255,7 +255,7 @@ def run(ctx):
         ctx.violation("facts or effects changed outside a completed finish block: " + why,
                       {"policy": cc.policy_text(p), "this": cc.val_text(this), "fail_at": fa,
                        "initial_facts": [str(f) for f in facts], "impl": l,
-                       "contradicts": "writes_only_in_finish_full_stmt (coq/proofs/FinishOnly.v); the instruction-level part is writes_only_in_finish_partial (coq/props/C30.v)",
+                       "contradicts": "lang_writes_only_in_finish (coq/props/C30.v, the reference semantics these runs are compared with) and writes_only_in_finish_full_stmt (coq/proofs/FinishOnly.v)",
                        "replay_cmd": "echo '%s' | build/target/debug/c30" % cc.run_line(p, "policy", "C", fa, [this, ENVELOPE], facts)})
     ctx.oblige("oracle:L3:no-writes-before-check-or-panic", not bad, "%d runs" % len(bad))
     ctx.log("L3: %d runs by the harness" % len(runs))
@@ -288,6 +288,6 @@ def run(ctx):
                     for (p, t, fa, f, r) in runs[:3]],
     })
     ctx.assumptions += [
-        "the machine-checked part is syntactic: placement of write instructions in the compiled code of every accepted policy; that runs ending in check (without recall) or panic leave no writes is checked on real runs (L3) and not proved over Vm.step",
+        "the run-level theorem is about the reference semantics Lang.v (which leg L3 compares every real run with), the code-level theorem about the placement of write instructions; the same statement over Vm.run on the compiled code is not proved",
         "the code in the theorem is the layout of model/CompileDirect.v; L1 checks on every generated policy that it equals the real compiler's output",
     ]
